@@ -168,6 +168,25 @@ def rule_hier(ctx):
            'bases %s' % [norm(b) for b in c.node.bases], nontrivial=False)
 
 
+def _sub_truth(test, v, val):
+    """Truth of `test` with the read result `v` bound to `val`, conjuncts / disjuncts that do not mention `v` taken as
+    true (they restrict when the test is reached, not how the read result is classified)."""
+    from sa import intexpr as _ie
+    if isinstance(test, ast.BoolOp):
+        vals = []
+        for x in test.values:
+            if v in [n.id for n in ast.walk(x) if isinstance(n, ast.Name)]:
+                vals.append(_sub_truth(x, v, val))
+            elif isinstance(test.op, ast.And):
+                vals.append(True)
+            else:
+                vals.append(False)
+        return all(vals) if isinstance(test.op, ast.And) else any(vals)
+    if isinstance(test, ast.UnaryOp) and isinstance(test.op, ast.Not):
+        return not _sub_truth(test.operand, v, val)
+    return bool(_ie.ev(test, {v: val}))
+
+
 def rule_trunc(ctx):
     """A3.trunc: truncation is classified as underrun, never as malformed.
 
@@ -218,9 +237,38 @@ def rule_trunc(ctx):
                         seen.add((b, lab))
                         deps.append((b, lab))
                         work.append(b)
-            on_empty = any(b.kind == 'test' and lab == 'true' and any(
-                ('not %s' % v) in norm(b.ast.test) and ('%s is None' % v) not in norm(b.ast.test).replace('%s is not None' % v, '')
-                for v in gvars) for b, lab in deps)
+            # some enclosing test, evaluated over the three outcomes of a read (None / empty / data), is passed on the way
+            # to the raise exactly for the empty outcome - however the test is spelt
+            from sa import intexpr as _ie
+
+            def truth(test, v, val):
+                try:
+                    return bool(_ie.ev(test, {v: val, 'size': 5}))
+                except _ie.NotPure:
+                    return _sub_truth(test, v, val)
+
+            def reaching_outcomes(v):
+                """read outcomes under which every enclosing test that looks at the read result lets control through"""
+                # the tests that enclose the raise in this pass through the loop, with the arm it sits in
+                rel = []
+                cur = r.ast
+                for a_ in ancestors(r.ast, g.node):
+                    if isinstance(a_, (ast.While, ast.For)):
+                        break
+                    if isinstance(a_, ast.If) and v in [x.id for x in ast.walk(a_.test) if isinstance(x, ast.Name)]:
+                        rel.append((a_.test, any(cur is x for x in a_.body)))
+                    cur = a_
+                if not rel:
+                    return None
+                out = []
+                for label, val in (('None', None), ('empty', 0), ('data', 1)):
+                    try:
+                        if all(truth(t_, v, val) == pol for t_, pol in rel):
+                            out.append(label)
+                    except _ie.NotPure:
+                        return None
+                return out
+            on_empty = any(reaching_outcomes(v) == ['empty'] for v in gvars)
             ctx.ob('A3.trunc', g, 'raise `%s` only on an empty read' % norm(r.ast)[:50], on_empty,
                    'a stream read that returned None or fewer octets than asked for means "not yet" (the caller retries): '
                    'raising here turns an empty poll / short read into an error the complete input does not raise'
